@@ -46,7 +46,7 @@ def replay(body):
     from . import sched
     sc = body["scenario"]
     progs = [[tuple(bytes.fromhex(x) if isinstance(x, str) and i in (2,) and c[0] in ("send", "close", "server_close") else x for i, x in enumerate(c)) for c in p] for p in sc["programs"]]
-    out = sched.run_schedule(progs, sc["schedule"], sc["compression"])
+    out = sched.run_schedule(progs, sc["schedule"], sc["compression"], lines=bool(sc.get("lines")))
     c11, c12 = conc.judge(progs, out, sc["compression"])
     print("wire:", [(t, b.hex()) for t, b in out["wire"]], "results:", out["results"])
     print("REPLAY:", ("VIOLATION reproduced: %s" % c12[0]) if c12 else "property holds on this schedule")
